@@ -214,6 +214,12 @@ def c03(res: CheckResult) -> None:
     call_unit(res, "invariants around operations (member kinds x check_on x operation sequences x state flips)",
               list(F.fam_inv(res.tier, rng)), ic, require_outcomes=["ret", "Violation"])
     call_unit(res, "async and sync public methods mixed; operation sequences", list(F.fam_inv_async(res.tier, rng)), ic)
+    late = list(F.with_late_members(list(F.fam_inv(res.tier, rng)) + list(F.fam_inv_async(res.tier, rng))))
+    rng.shuffle(late)
+    call_unit(res, "public methods added by a class decorator placed between two invariant decorators",
+              late[:400 if res.tier == "quick" else 4000], ic, require_outcomes=["ret", "Violation"])
+    call_unit(res, "the constructor bound under a second, public name (reset = __init__) is a public method",
+              list(F.fam_ctor_alias(res.tier, rng)), ic, require_outcomes=["ret", "Violation"])
     call_unit(res, "subclass constructors calling the base constructor; members added by the subclass",
               list(F.fam_inv_sub(res.tier, rng)), ic, require_outcomes=["ret", "Violation"])
     call_unit(res, "contract errors deriving from BaseException, the same contract violated three times in a row",
